@@ -53,8 +53,9 @@ def run_models(chk, thorough):
     chk.add_model("ManifestWire C18 input generator: truncation at every byte of v1..v4 layouts, every byte >= count area set to 255 / 0, expiry fields, version, prefix, base64 damage",
                   res["mut"][0], "invariant C18_Mut: specification decoder total, strict prefixes / bad prefix / bad length / bad characters refused")
     chk.add_model("ManifestWire boundary shape generator (one or two fields off base)", res["shapes"][0])
-    muts = [m for m in res["mut"][1] if isinstance(m, dict)]
-    shapes = [s for s in res["shapes"][1] if isinstance(s, dict)]
+    # (TLC's dump order depends on worker scheduling: sort, so that a seed reproduces a run)
+    muts = sorted((m for m in res["mut"][1] if isinstance(m, dict)), key=lambda m: (m["kind"], m["v"], m["k"], m["full"], m["chars"]))
+    shapes = sorted((s for s in res["shapes"][1] if isinstance(s, dict)), key=lambda s: json.dumps(s, sort_keys=True))
     if len(muts) < 1000 or len(shapes) < 500:
         raise vlib.MachineryError("generator models produced too few cases (%d mutations, %d shapes)" % (len(muts), len(shapes)))
     return muts, shapes
@@ -317,7 +318,7 @@ def run(chk):
         chk.sample({"source": "roundtrip", "events": [{"tag": e.get("tag"), "enc": e["enc"], "dec": e.get("dec")} for e in rt["events"][:6]]})
     else:
         real = [bytes(e["uri"]["b"]) for e in rt["events"] if e["op"] == "rt" and e.get("exact") and e["enc"] == "ok"]
-        dec_lines = mut_lines(muts, thorough) + random_dec_lines(rng, 20000 if thorough else 1500, real)
+        dec_lines = mut_lines(muts, thorough) + random_dec_lines(rng, 20000 if thorough else 1000, real)
         # the two input sets are independent: validate them side by side, each first on the plain build and then
         # (same inputs) on the ASan+UBSan build
         def chain(first, lines, label):
